@@ -20,6 +20,9 @@ A program is a dict
                                       ["raise","falsy"] raises an Exception subclass whose instances are FALSY (`__len__() == 0`: an
                                       error collection raised while empty), ["raise","falsybase"] a non-Exception BaseException subclass
                                       whose instances are falsy (`__bool__() is False`))
+       | ["nfail"] | ["nfail",kind]  closes the innermost nested block like ["nout"], but the inner block is LEFT BY AN EXCEPTION (kind as for
+                                     "raise": "" | "base" | "falsy" | "falsybase") raised at the end of its body, which the enclosing body
+                                     catches right outside the block (`try: async with ...: ...; raise E()` / `except E: pass`) and goes on
        | ["commit"] | ["rollback"]   explicit `await tx.commit()` / `await tx.rollback()` on the `Transaction` object that the innermost
                                      enclosing `async with cache.transaction(...) as tx` returned (the body goes on afterwards)
        | ["gc"]  (environment event, not part of the model: an abandoned call of the decorated function is finalised
@@ -292,6 +295,10 @@ class BodyFalsyBase(BaseException):
 
 RAISES = {"": BodyError, "base": BodyBase, "falsy": BodyFalsy, "falsybase": BodyFalsyBase}
 
+# what an inner block raises when the enclosing body is going to catch it (`nfail`): classes of their own, so that the `except`
+# clause around the inner block never swallows the body's own `raise` ops
+INNER_RAISES = {k: type("Inner" + c.__name__, (c,), {}) for k, c in RAISES.items()}
+
 
 MODES = {"fast": "FAST", "locked": "LOCKED", "serializable": "SERIALIZABLE"}
 
@@ -301,21 +308,23 @@ def key_name(k: int) -> str:
 
 
 def split_nested(ops):
-    """[... ["nin",f], inner..., ["nout"], ...] -> tree: list of op | ("block", form, subtree)"""
+    """[... ["nin",f], inner..., ["nout"] | ["nfail",kind], ...] -> tree: list of op | ("block", form, subtree, fail kind | None)"""
     def parse(i):
         out = []
         while i < len(ops):
             op = ops[i]
             if op[0] == "nin":
-                sub, i = parse(i + 1)
-                out.append(("block", op[1], sub))
+                sub, i, fail = parse(i + 1)
+                out.append(("block", op[1], sub, fail))
                 continue
             if op[0] == "nout":
-                return out, i + 1
+                return out, i + 1, None
+            if op[0] == "nfail":
+                return out, i + 1, (op[1] if len(op) > 1 else "")
             out.append(op)
             i += 1
-        return out, i
-    tree, _ = parse(0)
+        return out, i, None
+    tree, _, _ = parse(0)
     return tree
 
 
@@ -371,7 +380,16 @@ def execute(init: dict, programs: list[dict], schedule: list[int], snapshot=True
             async def run_ops(tree):
                 for op in tree:
                     if op[0] == "block":
-                        await in_block(op[1], op[2])
+                        if op[3] is None:
+                            await in_block(op[1], op[2])
+                        else:
+                            # the inner block fails and the enclosing body handles that itself
+                            if op[3] not in INNER_RAISES:
+                                raise SchedError(f"bad op nfail {op[3]}")
+                            try:
+                                await in_block(op[1], list(op[2]) + [["raise_inner", op[3]]])
+                            except INNER_RAISES[op[3]]:
+                                pass
                     elif op[0] == "set":
                         await cache.set(key_name(op[1]), op[2])
                     elif op[0] == "incr":
@@ -390,6 +408,8 @@ def execute(init: dict, programs: list[dict], schedule: list[int], snapshot=True
                         if (op[1] if len(op) > 1 else "") not in RAISES:
                             raise SchedError(f"bad op {op}")
                         raise RAISES[op[1] if len(op) > 1 else ""]()
+                    elif op[0] == "raise_inner":
+                        raise INNER_RAISES[op[1]]()
                     elif op[0] in ("commit", "rollback"):
                         tx = next((h for h in reversed(handles) if h is not None), None)
                         if tx is None:
